@@ -30,9 +30,12 @@ def reachable_fns(db, fn):
     return list(seen.values())
 
 
-def byte_partition(db, fn, extra=(), byte_types=('char',)):
-    """classes of bytes that the reachable code cannot tell apart: cut points from every constant a byte is compared with"""
+def byte_partition(db, fn, extra=(), byte_types=('char',), merge_gaps=False):
+    """classes of bytes that the reachable code cannot tell apart: cut points from every constant a byte is compared with.
+    merge_gaps: when bytes are only ever tested for (in)equality with constants, all bytes that equal none of the constants
+    behave alike and form one class (represented by the first such byte)"""
     cuts = {0, 256}
+    ordered = [False]
     for c in extra: cuts.add(c); cuts.add(c + 1)
     def consts(n):
         if isinstance(n, dict):
@@ -42,6 +45,9 @@ def byte_partition(db, fn, extra=(), byte_types=('char',)):
                     ot = strip_casts(n.get(other) or {}).get('t', '')
                     if isinstance(v, int) and -128 <= v <= 255 and ot.replace('const ', '').strip() in byte_types:
                         v &= 0xff; cuts.add(v); cuts.add(v + 1)
+                        if n['op'] not in ('==', '!='): ordered[0] = True
+                lt = strip_casts(n.get('l') or {}).get('t', '').replace('const ', '').strip(); rt = strip_casts(n.get('r') or {}).get('t', '').replace('const ', '').strip()
+                if lt in byte_types and rt in byte_types and 'v' not in (n.get('l') or {}) and 'v' not in (n.get('r') or {}): ordered[0] = True     # byte against byte
             if n.get('k') == 'Case':
                 v = (n.get('v') or {}).get('v')
                 if isinstance(v, int) and 0 <= v <= 255: cuts.add(v); cuts.add(v + 1)
@@ -50,7 +56,12 @@ def byte_partition(db, fn, extra=(), byte_types=('char',)):
             for v in n: consts(v)
     for f in reachable_fns(db, fn): consts(f.get('body'))
     cs = sorted(cuts)
-    return [(cs[i], cs[i + 1] - 1) for i in range(len(cs) - 1)]
+    parts = [(cs[i], cs[i + 1] - 1) for i in range(len(cs) - 1)]
+    if merge_gaps and not ordered[0]:
+        single = [p for p in parts if p[0] == p[1]]; gaps = [p for p in parts if p[0] != p[1]]
+        # a gap of one byte that is not a constant of the code looks like a singleton: keep only real constants as singletons
+        return single + gaps[:1]
+    return parts
 
 
 def strip_casts(n):
@@ -59,9 +70,12 @@ def strip_casts(n):
 
 
 class ScanMonitor(BaseMonitor):
-    def __init__(self, db, oracles=()):
+    def __init__(self, db, oracles=(), eol_check=None, trace=False):
         BaseMonitor.__init__(self, db)
         self.oracles = tuple(oracles)
+        self.eol_check = eol_check      # set of end-of-line characters: position shortcuts are checked against them (C06)
+        self.trace = trace              # record bump and rule-entry events (C16: span of the content rule)
+        self.sites = collections.Counter()
         self.linked = lambda e, cq: True      # library sub-rules are inlined down to the bytes
 
     def data(self, st, inp): return st.heap[inp.addr]
@@ -73,6 +87,10 @@ class ScanMonitor(BaseMonitor):
                 s1 = st.copy(); s1.events.append(('oracle', cq.split('::')[-1], True, args)); yield True, s1
                 s2 = st.copy(); s2.events.append(('oracle', cq.split('::')[-1], False, args)); yield False, s2
             return g()
+        if self.trace and cn == 'match' and e.get('cc'):
+            b = self.is_boundary(e, cq, cn, av, st, ex)
+            if b is not None and isinstance(st.heap[b[0].addr]['m_current'].pos, int):
+                st.events.append(('enter', (e.get('cc') or {}).get('s', ''), st.heap[b[0].addr]['m_current'].pos))
         inp = self.input_of(ex, ob, st) if ob is not None else None
         if inp is not None and st.heap[inp.addr].get('__scan'):
             o = st.heap[inp.addr]
@@ -97,6 +115,15 @@ class ScanMonitor(BaseMonitor):
                 n = ex.argval(av[0], st) if av else 1
                 if not isinstance(n, int): raise Unmodelled('symbolic advance in scan mode')
                 if pos + n > len(bs): st.viol.append(('S-oob', 'advances by %d with only %d available' % (n, len(bs) - pos), e.get('loc')))
+                if self.trace: st.events.append(('bump', cn, pos, n, fr.fn['q'], e.get('loc')))
+                if self.eol_check is not None and cn != 'bump' and pos + n <= len(bs):
+                    self.sites[e.get('loc')] += 1
+                    skipped = bs[pos:pos + n]
+                    if cn == 'bump_in_this_line':
+                        if any(x in self.eol_check for x in skipped):
+                            st.viol.append(('S-eol', 'bump_in_this_line( %d ) skips %r, which contains an end-of-line character: line and column disagree with the definition' % (n, bytes(skipped)), e.get('loc')))
+                    elif n and (skipped[-1] not in self.eol_check or any(x == skipped[-1] for x in skipped[:-1])):
+                        st.viol.append(('S-eol', 'bump_to_next_line( %d ) skips %r: the last byte is not the only end-of-line character' % (n, bytes(skipped)), e.get('loc')))
                 o['m_current'] = Cur(pos + n)
                 return ret(None)
             if cn in ('discard', 'require'): return ret(None)
@@ -111,14 +138,20 @@ class ScanMonitor(BaseMonitor):
         pass
 
 
-def run_on(db, fn, data, oracles=(), extra_args=None):
-    """-> list of (kind, value, consumed, oracle answers, violations)"""
-    mon = ScanMonitor(db, oracles); ex = Exec(db, mon); ex.maxsteps = 200000
+def run_on(db, fn, data, oracles=(), extra_args=None, eol_check=None, trace=False, mon_out=None):
+    """-> list of (kind, value, consumed, oracle answers, violations[, events])"""
+    mon = ScanMonitor(db, oracles, eol_check, trace); ex = Exec(db, mon); ex.maxsteps = 200000
+    if mon_out is not None: mon_out.append(mon)
     ex.widen = False          # every value is concrete in scan mode: loops are simply unrolled (bounded by the input length)
     st = State()
     inp = Obj(st.alloc({'__type': 'input', '__input': True, '__main': True, '__scan': True, 'bytes': tuple(data), 'm_current': Cur(0), 'private_depth': 0}))
     f = Frame(fn); ex.frames.append(f)
     bind_params(ex, fn, f, st, inp)
+    for p in fn['params']:
+        if extra_args and p.get('n') in extra_args:
+            v = EnvView(st, f.fid)[p['id']]
+            if isinstance(v, tuple) and v[0] == 'refto': st.heap[v[1][1]][1] = extra_args[p['n']]
+            else: EnvView(st, f.fid)[p['id']] = extra_args[p['n']]
     out = []
     for comp in ex.run_fn(fn, f, st):
         s = comp[-1]
@@ -128,7 +161,9 @@ def run_on(db, fn, data, oracles=(), extra_args=None):
         for x in s.events:
             if isinstance(x, tuple) and x[0] == 'oracle' and x[1] == 'accumulate_digit' and len(x[3]) > 1 and not (isinstance(x[3][1], int) and 48 <= x[3][1] <= 57):
                 viol.append(('S-digit', 'accumulate_digit is called with the non-digit byte %r' % (x[3][1],), None))
-        out.append((comp[0], comp[1] if comp[0] == 'return' else (comp[1] if comp[0] == 'throw' else None), pos, orc, viol))
+        r = (comp[0], comp[1] if comp[0] == 'return' else (comp[1] if comp[0] == 'throw' else None), pos, orc, viol)
+        if trace: r = r + ([x for x in s.events if isinstance(x, tuple) and x[0] in ('bump', 'enter')],)
+        out.append(r)
     return out
 
 
